@@ -181,7 +181,7 @@ theorem elementWrap_ok {f : Forest} {n : Nat} (name : Nat) (inv : f.Inv) (_norm 
       rw [Forest.addRoot_get_new _ hw, find?_node, if_pos rfl]
     have hwt : f.next ∉ handles t := by
       intro hm
-      have : f.next ∈ f.allHandles := (findList?_sublist f.roots t hg).subset hm
+      have : f.next ∈ f.allHandles := (fs_findList?_sublist f.roots t hg).subset hm
       exact Nat.lt_irrefl _ (inv.below _ this)
     apply append_root_ok ndZ _ hgn (isRoot_addRoot_left _ hroot)
     exact structureCheck_root ndZ hgw (Or.inl rfl) hgn hwt hn hd
